@@ -23,12 +23,15 @@ def rule_readlink(rep, d, fn):
                              "path must be built from the returned length (or the buffer be zeroed and one byte larger than the length "
                              "passed), and the returned length must be compared with the capacity so that a longer path is retried or "
                              "rejected rather than cut")
-    name = "executable_path"
     sites = list(calls_named(fn, "readlink"))
-    if len(sites) != 1:
-        rep.inconclusive("C20.readlink", name, "readlink call", where=d.where(fn), detail="expected exactly one readlink call on this platform, found %d" % len(sites))
+    if not sites:
+        rep.inconclusive("C20.readlink", "executable_path", "readlink call", where=d.where(fn), detail="no readlink call found on this platform")
         return
-    call, t = sites[0]
+    for i, (call, t) in enumerate(sites):
+        _readlink_site(rep, d, fn, call, t, "executable_path" if len(sites) == 1 else "executable_path [readlink call %d of %d]" % (i + 1, len(sites)))
+
+
+def _readlink_site(rep, d, fn, call, t, name):
     where = d.where(call)
     buf, cap = t[3], t[4]
     # the result variable (or direct comparison)
@@ -227,6 +230,15 @@ def rule_endian(rep, d, fn):
                                 % d.text(outside[0])[:60])
         else:
             rep.holds("C20.endian", name, "single decision", where=where, detail="every return is a case of the probe switch")
+    if len(sw) == 0:
+        # no run-time probe at all in this configuration: any constant answer is a decision that does not come from the byte order
+        consts = [r for r in ir.walk_expr(ir.body(fn)) if r.get("kind") == "ReturnStmt" and ir.ekids(r)
+                  and ir.strip(ir.ekids(r)[0]).get("kind") == "DeclRefExpr" and (ir.strip(ir.ekids(r)[0]).get("referencedDecl") or {}).get("kind") == "EnumConstantDecl"]
+        if consts:
+            rep.violates("C20.endian", name, "single decision", where=d.where(consts[0]),
+                         detail="in this configuration (include order / predefined macros) the function is just `%s`: the answer is taken from a preprocessor test, "
+                                "not from the byte order of the machine" % d.text(consts[0])[:60])
+            return
     if probe is None or len(sw) != 1:
         rep.inconclusive("C20.endian", name, "shape", where=where, detail="probe constant / single switch not found")
         return
